@@ -113,6 +113,7 @@ class Analyzer:
             n = BYTES_LEN.get(fname, 32)
             if fname.endswith("setShortBytes"):
                 n = 21
+            n += getattr(self, "len_delta", 0)
             cells = [self.sym_cells(k, et, "%s[%d]" % (name, i)) for i in range(n)]
             oid = ex.new_obj(path, ("array", n, et), name=name, init=cells)
             return X.SliceV(oid, (), 0, n, n)
@@ -262,15 +263,27 @@ class Analyzer:
         # a stand-alone analysis with every parameter symbolic may not terminate (a loop bound that is a public counter in
         # every caller is symbolic here): bounded in time; the function is then analysed in the context of its callers
         ex.deadline = time.time() + (40 if fname not in self.roots else 300)
+        ex.max_pending = 300 if fname in self.roots else None   # (isReduced alone has 65 paths; the entry points have <= 7)
+        budget_msg = None
         try:
             paths = ex.call(fname, args, k.path)
         except X.ExecError as e:
             if "time budget" not in str(e):
                 raise
-            self.shapes[fname] = None
-            return dict(fname=fname, paths=0, sites=[], seconds=time.time() - t0, engine_errors=["%s: %s" % (fname, e)], panics=[])
+            if fname not in self.roots:
+                self.shapes[fname] = None
+                return dict(fname=fname, paths=0, sites=[], seconds=time.time() - t0, engine_errors=["%s: %s" % (fname, e)], panics=[])
+            # an entry point whose exploration blows up (typically: a secret-dependent branch inside a loop doubles the
+            # paths every iteration): the leak sites on the paths explored so far are still examined - a site that two
+            # secrets drive differently is a leak whether or not the rest was explored; the check stays undecided otherwise
+            budget_msg = "%s: %s" % (fname, e)
+            paths = list(getattr(e, "partial", []))
+            for p_ in paths:
+                if p_.outcome is None:
+                    p_.outcome = ("pending", "not explored further")
         finally:
             ex.deadline = None
+            ex.max_pending = None
         # return shape (for callers' summaries)
         shape = None
         for p in paths:
@@ -282,8 +295,10 @@ class Analyzer:
                         if idx:
                             sh.append(("arg", idx[0]))
                         else:
-                            m = ex.meta[v.obj]
-                            sh.append(("ptr", m.type.id) if hasattr(m.type, "id") and not v.path else ("nil",))
+                            # a pointer to a fresh object, into a package-level object (e.g. the lazily built tables) or
+                            # into an argument: callers get a fresh object of the declared pointee type with secret contents
+                            rt_ = prog.T(f["results"][len(sh)])
+                            sh.append(("ptr", rt_.elem.id) if rt_.u.k == "ptr" and hasattr(rt_.elem, "id") else ("nil",))
                     elif isinstance(v, X.SliceV):
                         sh.append(("slice", v.len if type(v.len) is int else 32))
                     elif v is None:
@@ -295,6 +310,15 @@ class Analyzer:
         self.shapes[fname] = shape
         errs = [p for p in paths if p.outcome[0] == "error" and not p.dstate.get("extcalls")]
         engine_errors = ["%s: engine could not execute a path: %s" % (fname, errs[0].outcome[1][:160])] if errs else []
+        if budget_msg:
+            engine_errors.append(budget_msg)
+        # vacuity guards: a function none of whose paths returns was not analysed at all; a run-time panic (nil dereference,
+        # index out of range) on symbolic valid inputs is an artefact of a summary (or a defect) and hides the code behind it
+        if not any(p.outcome and p.outcome[0] == "ret" for p in paths) and not errs and not budget_msg:
+            engine_errors.append("%s: no explored path returns (outcomes: %s)" % (fname, sorted({str(p.outcome)[:80] for p in paths})[:3]))
+        rt_panics = [p for p in paths if p.outcome[0] == "panic" and not str(p.outcome[1]).startswith("explicit:")]
+        if rt_panics:
+            engine_errors.append("%s: run-time panic on a path of the leakage analysis: %s" % (fname, str(rt_panics[0].outcome[1])[:120]))
         # ---- leak sites
         sites = {}
         for p in paths:
@@ -423,7 +447,7 @@ def run(chk):
     chk.fact("no constant-time entry point reaches a variable-time routine (VarTime*, nonAdjacentForm, NAF tables)", not vt_reached, [], "static call graph", detail=str(vt_reached[:4]))
     if base.has_asm:
         for name, fn in base.asm_funcs.items():
-            probs = asm.static_checks(fn)
+            probs = asm.static_checks(fn, fn.get("int_args", ()))
             chk.fact("fe_amd64.s %s: no jumps/calls, memory operands are constant offsets from pointer arguments" % name, not probs, [F + name], "assembly shape", detail="; ".join(probs[:2]))
     # analysis order: callees first
     an = Analyzer(base, chk)
@@ -537,6 +561,34 @@ def run(chk):
                     results = [x for x in results if x["fname"] != n] + [r]
         if not changed:
             break
+    # "the bounds cover the code" (unwinding-assertion analogue): every block of an analysed function from which a return
+    # is reachable must have been entered by some explored path - otherwise leak sites in it were never looked at.  Blocks
+    # behind a length test of a byte-string argument are reached by a second analysis with another (public) length.
+    from .common import uncovered_blocks
+    analysed = {r["fname"] for r in results} | an.inline
+    unc = uncovered_blocks(prog, only=analysed - an.vartime)
+    relen = [n for n in order if n in unc and n not in an.inline and any(p["type"] == "[]byte" for p in prog.fn(n)["params"])]
+    if relen:
+        an.len_delta = 1
+        saved_inline = set(an.inline)
+        bytefns = {n for n in ct_funcs if any(p["type"] == "[]byte" for p in prog.fn(n)["params"]) and n not in an.vartime}
+        for n in relen:
+            # callees that take the byte string are executed inline here, so that their length-error result reaches the caller
+            an.inline = saved_inline | (bytefns - {n})
+            try:
+                r = an.analyse(n, None)
+            except Exception as e:
+                chk.note_inconclusive("leak analysis of %s (other slice length): engine error %r" % (n, e))
+                continue
+            if r is not None:
+                r["other_length"] = True
+                results.append(r)
+        an.len_delta = 0
+        an.inline = saved_inline
+        chk.extra["analysed_with_a_second_slice_length"] = [n.replace("filippo.io/edwards25519", "ed") for n in relen]
+        unc = uncovered_blocks(prog, only=analysed - an.vartime)
+    chk.add(Ob("bounds cover the code: every basic block (from which a return is reachable) of the %d analysed functions was entered by an explored path" % len(analysed),
+               "unsat" if not unc else "unexplored:%s" % {k_.replace("filippo.io/edwards25519", "ed"): [p_ for _, p_ in v][:3] for k_, v in unc.items()}, 0, sorted(unc)[:4], "block coverage of the leakage exploration"))
     if ctx_inlined:
         chk.extra["context_sensitive_reanalysis"] = {k_.replace("filippo.io/edwards25519", "ed"): [x.replace("filippo.io/edwards25519", "ed") for x in v] for k_, v in ctx_inlined.items()}
     nsites = 0
